@@ -1,5 +1,7 @@
 import NurbsVerif.Lemmas.BasisProps
 import NurbsVerif.Lemmas.Span
+import NurbsVerif.Lemmas.SpanBin
+import NurbsVerif.Model.Knots
 
 /-!
 # C03  Basis functions and knot-span search satisfy their defining identities
@@ -26,6 +28,22 @@ theorem findSpanLinear_unique (p : ℕ) (U : ℕ → K) (n : ℕ) (u : K) (hpn :
     (hm : Monotone U) (hlo : U p ≤ u) (hhi : u < U n) (k' : ℕ) (h1' : U k' ≤ u) (h2' : u < U (k'+1)) :
     findSpanLinear p U n u = k' :=
   Geomdl.findSpanLinear_unique p U n u hpn hm hlo hhi k' h1' h2'
+
+/-- **Binary search = linear search** (termination included: the fuel the model gives the loop
+    suffices) for every degree, non-decreasing knot function and parameter of the domain, provided the
+    tolerance shortcut at the domain end only fires for parameters of the last span. -/
+theorem findSpanBin_eq_linear (p : ℕ) (U : ℕ → K) (n : ℕ) (u tol : K) (hpn : p + 1 ≤ n)
+    (hm : Monotone U) (hlo : U p ≤ u) (hhi : u ≤ U n) (htol : 0 ≤ tol)
+    (hend : absK (U n - u) ≤ tol → U (n - 1) ≤ u) :
+    findSpanBin p U n u tol = some (findSpanLinear p U n u) :=
+  Geomdl.findSpanBin_eq_linear p U n u tol hpn hm hlo hhi htol hend
+
+/-- Without that hypothesis the two searches differ (recorded finding F-17b): an interior knot within
+    the tolerance of the domain end. -/
+theorem findSpanBin_refuted_F17b :
+    findSpanBin 2 (fnOf ([0,0,0,1/2,999995/1000000,1,1,1] : List ℚ)) 5 (999992/1000000) (1/100000)
+      ≠ some (findSpanLinear 2 (fnOf ([0,0,0,1/2,999995/1000000,1,1,1] : List ℚ)) 5 (999992/1000000)) := by
+  decide +kernel
 
 /-- A2.2 returns `p+1` values. -/
 theorem basisFuns_length (p : ℕ) (U : ℕ → K) (k : ℕ) (u : K) : (basisFuns p U k u).length = p + 1 :=
